@@ -433,7 +433,24 @@ def own_dtype_arithmetic(tree, fields):
     return found
 
 
-DETECTORS = {"P6": "own-dtype-arithmetic", "P1": "one-shot-iterator", "P2": "truthy-bound", "P3": "truncating-dtype", "P4": "identity-on-value", "P5": "lossy-fancy-accumulation"}
+def default_tolerance_decisions(tree):
+    """P7: np.isclose / np.allclose / math.isclose called WITHOUT rtol / atol (NumPy's defaults are rtol=1e-5, atol=1e-8)
+    on model data, deciding a branch: data of magnitude 1e-8 or below is "equal to zero", and two values that differ by a
+    relative 1e-5 are "the same".  Coefficients in small units vanish, a nearly symmetric matrix is taken for symmetric,
+    a small parameter update is not an update."""
+    found = []
+    for fn in [n for n in ast.walk(tree) if isinstance(n, (ast.FunctionDef, ast.AsyncFunctionDef))]:
+        for c in _own(fn):
+            if not (isinstance(c, ast.Call) and (dotted(c.func) or "").split(".")[-1] in ("isclose", "allclose") and len(c.args) >= 2):
+                continue
+            if len(c.args) > 2 or any(k.arg in ("rtol", "atol", "rel_tol", "abs_tol") for k in c.keywords):
+                continue
+            found.append((c.lineno, "P7", fn.name, f"`{src(c)[:60]}` decides with NumPy's default tolerances (rtol 1e-5, atol 1e-8): whether model data counts as zero / equal then depends on the units it is written in -- "
+                          f"values of magnitude 1e-8 vanish and relative differences below 1e-5 are ignored", src(c)[:40]))
+    return found
+
+
+DETECTORS = {"P7": "default-tolerance-decision", "P6": "own-dtype-arithmetic", "P1": "one-shot-iterator", "P2": "truthy-bound", "P3": "truncating-dtype", "P4": "identity-on-value", "P5": "lossy-fancy-accumulation"}
 
 _POSITIVE = {
     "P1": "def gen(xs):\n    for x in xs:\n        yield x\n\ndef build(xs):\n    fns = gen(xs)\n    return lambda x, fns=fns: sum(f(x) for f in fns)\n\ndef rows(elems, qs):\n    it = enumerate(elems)\n    for q in qs:\n        for j, e in it:\n            pass\n",
@@ -453,6 +470,16 @@ def selfcheck():
         n_expected = {"P1": 2, "P2": 2, "P3": 1, "P4": 2, "P5": 2}[kind]
         if sum(1 for f in got if f[1] == kind) != n_expected:
             raise AnalysisError(f"pitfall detector {kind} no longer matches its built-in positive example ({len(got)} finding(s))")
+    ex6 = "import numpy as np\nclass Q:\n    def __init__(self, matrix):\n        matrix = np.asarray(matrix)\n        self.matrix = matrix\n    def row(self):\n        return self.matrix + self.matrix.T\n    def ok(self):\n        m = np.asarray(self.matrix, dtype=np.float64)\n        return m + m.T\n"
+    t6 = ast.parse(ex6)
+    _parents(t6)
+    if len(own_dtype_arithmetic(t6, raw_array_fields([t6]))) != 1:
+        raise AnalysisError("pitfall detector P6 no longer matches its built-in positive example")
+    ex7 = "import numpy as np\ndef f(c, q):\n    if np.isclose(c, 0.0):\n        return 0\n    return np.allclose(q, q.T, rtol=1e-10, atol=1e-14)\n"
+    t7 = ast.parse(ex7)
+    _parents(t7)
+    if len(default_tolerance_decisions(t7)) != 1:
+        raise AnalysisError("pitfall detector P7 no longer matches its built-in positive example")
     tree = ast.parse(_NEGATIVE)
     _parents(tree)
     got = _run(tree, _generator_functions([tree]))
@@ -495,9 +522,10 @@ def report(prog, rep, rule, rels, kinds=("P1", "P2", "P3"), skip_functions=()):
         n_fn += sum(1 for n in ast.walk(m.tree) if isinstance(n, (ast.FunctionDef, ast.AsyncFunctionDef)))
         extra = generators_passed_to_reiterating_functions(prog, [m.rel], gens) if "P1" in kinds else []
         extra += own_dtype_arithmetic(m.tree, raw_fields)
+        extra += default_tolerance_decisions(m.tree)
         for lineno, kind, fname, msg, key in _run(m.tree, gens, kinds) + extra:
             if fname in skip_functions:
                 continue
             total += 1
             rep.ob(rule, f"{fname}", False, msg, loc=f"{m.rel}:{lineno}", detail=f"{DETECTORS[kind]}:{key}", robust=True)
-    rep.ob(rule, "value-carrying code", True, f"{n_fn} functions of {sorted(rels)} scanned for {', '.join(DETECTORS[k] for k in kinds)}, own-dtype-arithmetic: {total} finding(s)", detail="pitfall-inventory", trivial=True, loc=None)
+    rep.ob(rule, "value-carrying code", True, f"{n_fn} functions of {sorted(rels)} scanned for {', '.join(DETECTORS[k] for k in kinds)}, own-dtype-arithmetic, default-tolerance-decision: {total} finding(s)", detail="pitfall-inventory", trivial=True, loc=None)
